@@ -14,7 +14,7 @@ from vmon.libutil import load_definition, monitored
 
 LEVEL = "exploration"
 SHARDS = {"quick": 16, "thorough": 16}
-MUST = ["abstract.capitalised_spelling", "nested.nests-own-base", "trees.grouping_layer", "nested.embeds-root", "nested.twice", "nested.diamond", "nested.shared", "root_override.generator_runs", "root_override.single_parses", "root_override.default_root_afterwards", "outcome.ok", "outcome.unrecognized", "unrec.abstract-dead-end", "unrec.ambiguous", "end.concrete-dead-end",
+MUST = ["wide_literals.packets", "abstract.capitalised_spelling", "nested.nests-own-base", "trees.grouping_layer", "nested.embeds-root", "nested.twice", "nested.diamond", "nested.shared", "root_override.generator_runs", "root_override.single_parses", "root_override.default_root_afterwards", "outcome.ok", "outcome.unrecognized", "unrec.abstract-dead-end", "unrec.ambiguous", "end.concrete-dead-end",
         "end.leaf", "depth.>=2", "nested.expanded", "apid-name.other", "generator.error_objects", "trees.enumerated", "reparse.same_raw_object"]
 RULE = ("document = container tree; packet = header + steering fields + one byte per container on the path; the library's "
         "outcome (item names in order, values, header/user_data views, unrecognized+partial data, or normal end) must "
@@ -199,7 +199,42 @@ def exercise(ctx, doc, shape_sig, apids=(100,), via_generator=False, sample=Fals
         ctx.count("generator.error_objects", ctx.counters["stream.error_objects"] - before)
 
 
+def wide_literals(ctx):
+    """restrictions that compare a 64-bit parameter with literals a double cannot hold (2**53+1, 2**64-1, ...), as Comparison and as
+    Condition, with equality and ordering operators: neighbouring values must select the neighbouring sibling / none"""
+    from space_packet_parser import packets as P
+    ts, ps = header_types("PKT_APID")
+    ts += [ir.PType("BIG_T", "integer", ir.IntEnc(64, "unsigned")), ir.PType("Y_T", "integer", ir.IntEnc(8, "unsigned"))]
+    ps += [ir.Param("BIG", "BIG_T"), ir.Param("Y", "Y_T")]
+    hdr = tuple(("p", p.name) for p in ps[:7])
+    lits = [2 ** 53 + 1, 2 ** 53, 2 ** 64 - 1, 2 ** 63 + 1]
+    for form in ("condition", "comparison", "condition-ordering"):
+        kids = []
+        for j, lit in enumerate(lits):
+            if form == "condition":
+                crit = ir.BoolExpr(ir.Condition("BIG", "==", right_value=str(lit), right_cal=False))
+            elif form == "comparison":
+                crit = (ir.Comparison("BIG", str(lit), "==", False),)
+            else:
+                crit = ir.BoolExpr(ir.And((ir.Condition("BIG", ">=", right_value=str(lit), right_cal=False), ir.Condition("BIG", "<", right_value=str(lit + 1), right_cal=False))))
+            kids.append(ir.Container(f"K{j}", (("p", "Y"),), "CCSDSPacket", crit))
+        doc = ir.Doc(tuple(ts), tuple(ps), (ir.Container("CCSDSPacket", hdr + (("p", "BIG"),), None, None, True),) + tuple(kids))
+        info = harness.DocInfo(doc)
+        defn = load_definition(render.render_doc(doc))
+        for v in sorted({x + d for x in lits for d in (-2, -1, 0, 1, 2) if 0 <= x + d < 2 ** 64}):
+            raw = bytes(P.create_ccsds_packet(v.to_bytes(8, "big") + b"\x07", apid=100))
+            out = ref.walk(doc, raw)
+            step, pkt = harness.parse_single(defn, raw)
+            ctx.count("evaluations")
+            ctx.count("wide_literals.packets")
+            ctx.sig("wide-literal", form, out.status)
+            for mech, msg in harness.judge_single(ctx, info, raw, step, pkt, out):
+                ctx.violation(f"wide-literal/{form}/{mech}", f"BIG={v}: {msg}", {"form": form, "value": str(v)})
+
+
 def run(ctx):
+    if ctx.shard == 4 % ctx.nshards:
+        wide_literals(ctx)
     rng = ctx.rng("c05")
     item = 0
     npool = len(POOL)
